@@ -199,28 +199,62 @@ def run(ctx):
     import pyarrow as pa
     import pyarrow.parquet as pq
     layouts = [(10, 4, 3), (12, 5, 12), (9, 2, 1), (20, 7, 6), (7, 3, 4), (11, 4, 4), (13, 5, 2), (1000, 250, 300), (6, 8, 4)]
-    for (n, cs, rg) in layouts[: ctx.n(6, 9)] + [(rng.randrange(5, 60), rng.randrange(2, 12), rng.randrange(1, 15)) for _ in range(ctx.n(6, 60))]:
+    # files written incrementally: row groups of unequal sizes (first group larger / smaller than later ones)
+    uneven = [(30, [30, 30, 10, 10, 10, 10]), (4, [5, 1, 1, 1, 3, 2]), (6, [2, 9, 1, 7]), (3, [8, 1, 1, 1, 1])]
+    jobs = [(n, cs, rg, None) for (n, cs, rg) in layouts[: ctx.n(6, 9)]]
+    jobs += [(sum(g), cs, None, g) for (cs, g) in uneven[: ctx.n(3, 4)]]
+    for _ in range(ctx.n(8, 80)):
+        if rng.random() < 0.5:
+            jobs.append((rng.randrange(5, 60), rng.randrange(2, 12), rng.randrange(1, 15), None))
+        else:
+            g = [rng.randrange(1, 12) for _ in range(rng.randrange(2, 8))]
+            jobs.append((sum(g), rng.randrange(2, 14), None, g))
+    for (n, cs, rg, gsizes) in jobs:
         path = os.path.join(ctx.workdir, "src.pqt")
-        pq.write_table(pa.table({"ra": np.arange(n, dtype="f8"), "dec": np.zeros(n)}), path, row_group_size=rg)
+        table = pa.table({"ra": np.arange(n, dtype="f8"), "dec": np.zeros(n)})
+        if gsizes is None:
+            pq.write_table(table, path, row_group_size=rg)
+        else:
+            rg = 0
+            with pq.ParquetWriter(path, table.schema) as wr:
+                at = 0
+                for g in gsizes:
+                    wr.write_table(table.slice(at, g), row_group_size=g)
+                    at += g
         groups = [pq.ParquetFile(path).metadata.row_group(i).num_rows for i in range(pq.ParquetFile(path).metadata.num_row_groups)]
         reqs = []
         orig = readers.parquet
 
         class _PF:
-            def __init__(self, p):
-                self._f = orig.ParquetFile(p)
-                self.metadata = self._f.metadata
+            """transparent logging proxy of pyarrow's ParquetFile (anything not logged is forwarded)"""
 
-            def read_row_group(self, i, columns=None):
+            def __init__(self, p, *a, **k):
+                self._f = orig.ParquetFile(p, *a, **k)
+
+            def __getattr__(self, name):
+                return getattr(self._f, name)
+
+            def read_row_group(self, i, *a, **k):
                 reqs.append(int(i))
-                return self._f.read_row_group(i, columns)
+                return self._f.read_row_group(i, *a, **k)
 
-            def close(self):
+            def read_row_groups(self, idx, *a, **k):
+                idx = [int(i) for i in idx]
+                reqs.extend(idx)
+                return self._f.read_row_groups(idx, *a, **k)
+
+            def __enter__(self):
+                return self
+
+            def __exit__(self, *exc):
                 self._f.close()
 
         class _PQ:
             ParquetFile = _PF
-        readers.parquet = _PQ
+
+            def __getattr__(self, name):
+                return getattr(orig, name)
+        readers.parquet = _PQ()
         perr = None
         chunks = []
         try:
